@@ -39,3 +39,6 @@ func (r *R) Pick(xs ...int) int { return xs[r.Intn(len(xs))] }
 
 // Fork derives an independent stream.
 func (r *R) Fork() *R { return New(r.U64()) }
+
+// PickS picks one of the strings.
+func (r *R) PickS(xs ...string) string { return xs[r.Intn(len(xs))] }
